@@ -84,3 +84,18 @@ func verifCanary(label string, cond bool) {}
 //@   after "c.Close()" assigns nothing
 //@   ensures [C06:limits-kept] c.ack == old(c.ack) && connInv(c)
 //@   ensures [C06:server-send-fits-client] result == nil && c.TCPConn == old(c.TCPConn) ==> c.ack.SendBufSize <= helloRecv
+
+// C01: the Acknowledge message round-trips (five little-endian uint32 fields, 20 bytes)
+//@ func verifRoundTripAcknowledge
+//@   props C01
+func verifRoundTripAcknowledge(a *Acknowledge) {
+	if a == nil {
+		return
+	}
+	b, err := a.Encode()
+	g := new(Acknowledge)
+	n, derr := g.Decode(b)
+	verifAssert("C01:acknowledge", err == nil && derr == nil && n == 20 && len(b) == 20 &&
+		g.Version == a.Version && g.ReceiveBufSize == a.ReceiveBufSize && g.SendBufSize == a.SendBufSize &&
+		g.MaxMessageSize == a.MaxMessageSize && g.MaxChunkCount == a.MaxChunkCount)
+}
